@@ -344,7 +344,7 @@ impl Wal {
         let segment_num = Self::find_latest_segment(dir)?;
         let segment_path = dir.join(format!("wal.{:06}", segment_num));
 
-        let segment = if segment_path.exists() {
+        let mut segment = if segment_path.exists() {
             WalSegment::open(&segment_path, segment_num)?
         } else {
             WalSegment::create(&segment_path, segment_num)?
@@ -368,6 +368,10 @@ impl Wal {
                 page_index.insert((header.file_id, header.page_no), (segment_num, offset));
                 offset += (WAL_FRAME_HEADER_SIZE + PAGE_SIZE) as u64;
             }
+
+            // Append after the valid frames: drop a torn tail and move the write cursor there,
+            // otherwise new frames would overwrite the segment from its start.
+            segment.position_for_append(offset)?;
         }
 
         let frame_count = page_index.len() as u32;
@@ -607,20 +611,17 @@ impl Wal {
 
         let mut segment = self.current_segment.lock();
 
-        segment
-            .writer
-            .get_mut()
-            .set_len(0)
-            .wrap_err("failed to truncate WAL segment file")?;
-
+        // Flush first: frames still in the write buffer belong to the log being discarded and
+        // must not reach the file after it was emptied. Then empty the file and rewind the
+        // write cursor, so the next frame starts at offset 0 instead of after a hole of zeros.
         segment
             .writer
             .flush()
-            .wrap_err("failed to flush WAL segment after truncate")?;
+            .wrap_err("failed to flush WAL segment before truncate")?;
+
+        segment.position_for_append(0)?;
         #[cfg(kahflane_turdb_verif)]
         crate::verif::crash_point("wal.truncate.set_len");
-
-        segment.offset = 0;
 
         drop(segment);
 
@@ -1045,6 +1046,24 @@ impl WalSegment {
             offset: len,
             path: path.to_path_buf(),
         })
+    }
+
+    /// Makes `valid_len` the end of the segment: cuts anything beyond it and positions the
+    /// write cursor there.
+    fn position_for_append(&mut self, valid_len: u64) -> Result<()> {
+        let file = self.writer.get_mut();
+        let len = file
+            .metadata()
+            .wrap_err("failed to get WAL segment metadata")?
+            .len();
+        if len != valid_len {
+            file.set_len(valid_len)
+                .wrap_err("failed to truncate WAL segment file")?;
+        }
+        file.seek(SeekFrom::Start(valid_len))
+            .wrap_err("failed to position WAL segment for append")?;
+        self.offset = valid_len;
+        Ok(())
     }
 
     pub fn sequence(&self) -> u64 {
